@@ -134,4 +134,321 @@ theorem integer_delay_eq_put2d (values : List ℚ) (shifts : List ℕ) (hne : sh
 example : put2d [1, 2, 3] [0, 2, 1] .none = .ok ([0, 2, 1].map (fun (s : ℕ) => delayed [1, 2, 3] (s : ℚ) (3 + 2))) := by
   decide +kernel
 
+/-! ## C19.a — definition of the surface energy -/
+
+/-- **C19.a** `surface_energy_def` (scalar reductions; guard: `dt ≠ 0`, non-empty record,
+`max_shift = int(max(2·tt/dt)) = ms ≥ 0` exists, i.e. at least one travel time and no `np.pad` error).
+`calc_surface_energy` is `trim_to_length` + squeeze applied to the rows `energyRow`, where
+`energyRow = ½·v·|v|`, `v = cumtrapz(accRow, dx=dt)`, `accRow[k] = up_red·a⁰[k] ∓ down_red·(D_{2tt/dt} a)[k]`
+(see `energy_row_entry`, `acc_row_entry`, `delay_between`, `delay_outside`, `integer_delay`). -/
+theorem surface_energy_def (values : List ℚ) (dt : ℚ) (tts : List ℚ) (nodal : Bool) (u d : ℚ) (ms : ℕ)
+    (stt : ℚ) (trim start : Bool)
+    (hdt : dt ≠ 0) (hv : values ≠ []) (hms : maxShift tts dt = .ok ms) :
+    calcSurfaceEnergy values dt tts nodal (.scalar u d) stt trim start =
+      (trimToLength (tts.map (fun t => energyRow values dt ms (2 * t / dt) nodal u d))
+          values.length tts dt trim start stt) >>= squeeze tts.length ∧
+    calcSurfaceEnergy values dt tts nodal (.scalar u d) stt false false =
+      squeeze tts.length (tts.map (fun t => energyRow values dt ms (2 * t / dt) nodal u d)) := by
+  have h := calcSurfaceEnergy_scalar values dt tts nodal u d ms stt
+  refine ⟨h trim start hdt hv hms, ?_⟩
+  rw [h false false hdt hv hms, trimToLength_none _ _ _ _ _ hdt]
+  rfl
+
+example : maxShift [1/8, 1/4] (1/2) = .ok 1 ∧
+    calcSurfaceEnergy [1, 2, -1] (1/2) [1/8, 1/4] true (.scalar 1 1) 0 false false =
+      .ok (.rows [energyRow [1, 2, -1] (1/2) 1 (1/2) true 1 1, energyRow [1, 2, -1] (1/2) 1 1 true 1 1]) := by
+  decide +kernel
+
+/-- **C19.a (energy entries)** `e[k] = ½·v[k]·|v[k]|` with `v = cumulative_trapezoid(acc, dx=dt, initial=0)` -/
+theorem energy_row_entry (values : List ℚ) (dt : ℚ) (ms : ℕ) (s : ℚ) (nodal : Bool) (u d : ℚ) (k : ℕ) :
+    (energyRow values dt ms s nodal u d)[k]? =
+      ((cumtrapz dt (accRow values ms s nodal u d))[k]?).map (fun v => (1 / 2) * v * |v|) := by
+  simp only [energyRow, List.getElem?_map]
+  congr 1
+  funext v
+  simp [halfVAbsV, absv_eq_abs]
+
+/-- **C19.a (acceleration entries)** `acc[k] = up_red·a⁰[k] ∓ down_red·(D_s a)[k]` for `k < npts + ms`, where
+`a⁰[k] = values.getD k 0` is the zero-padded record and
+`(D_s a)[k] = np.interp(k − s, arange(npts), values, left=0, right=0)`. -/
+theorem acc_row_entry (values : List ℚ) (ms : ℕ) (s : ℚ) (nodal : Bool) (u d : ℚ) (k : ℕ)
+    (hk : k < values.length + ms) :
+    (accRow values ms s nodal u d)[k]? =
+      some (u * values.getD k 0 + (if nodal then -1 else 1) * (d * interpUnit values 0 0 ((k : ℚ) - s))) := by
+  have hk' : k < (accRow values ms s nodal u d).length := by simpa using hk
+  rw [List.getElem?_eq_getElem hk']
+  simp only [accRow, List.getElem_zipWith, delayed_getElem]
+  congr 3
+  by_cases hkn : k < values.length
+  · rw [List.getElem_append_left hkn, getD_of_lt _ _ hkn]
+  · rw [List.getElem_append_right (not_lt.mp hkn), getD_of_le _ _ (not_lt.mp hkn)]
+    simp
+
+example : (accRow [1, 2, -1] 1 (1/2) true 1 1)[(1 : ℕ)]? =
+    some ((1 * 2 + (-1) * (1 * ((1 - 1/2) * 1 + (1/2) * 2)) : ℚ)) := by
+  decide +kernel
+
+/-- **C19.a (fractional delay)** `(D_s a)[k]` is the linear interpolation of the record at `k − s`:
+for `k − s = j + θ`, `0 ≤ θ < 1`, `j + 1 < npts`: `(1 − θ)·a[j] + θ·a[j+1]`. -/
+theorem delay_between (values : List ℚ) (s : ℚ) (w k j : ℕ) (θ : ℚ) (hk : k < w)
+    (hj : j + 1 < values.length) (h0 : 0 ≤ θ) (h1 : θ < 1) (hks : (k : ℚ) - s = (j : ℚ) + θ) :
+    (delayed values s w)[k]'(by simpa using hk) = (1 - θ) * values[j] + θ * values[j + 1] := by
+  rw [delayed_getElem, hks, interpUnit_between _ _ _ j θ hj h0 h1, getD_of_lt _ _ (by omega), getD_of_lt _ _ hj]
+
+/-- **C19.a (zero fill)** `(D_s a)[k] = 0` before the delayed record starts (`k < s`) and after it ends
+(`k − s > npts − 1`). -/
+theorem delay_outside (values : List ℚ) (s : ℚ) (w k : ℕ) (hk : k < w) (hne : values ≠ [])
+    (hout : (k : ℚ) < s ∨ ((values.length - 1 : ℕ) : ℚ) < (k : ℚ) - s) :
+    (delayed values s w)[k]'(by simpa using hk) = 0 := by
+  rw [delayed_getElem]
+  rcases hout with h | h
+  · exact interpUnit_left _ _ _ _ hne (by linarith)
+  · exact interpUnit_right _ _ _ _ hne h
+
+example : delayed [1, 2, -1] (1/2) 4 = [0, 3/2, 1/2, 0] := by decide +kernel
+
+/-! ## C19.c — cumulative absolute change, lengths -/
+
+/-- **C19.c (monotone)** every row of `calc_cum_abs_surface_energy` is non-decreasing (any reductions, any
+options), and has the length of the corresponding `calc_surface_energy` row. -/
+theorem cum_abs_monotone (values : List ℚ) (dt : ℚ) (tts : List ℚ) (nodal : Bool) (red : Red)
+    (stt : ℚ) (trim start : Bool) (out : Out)
+    (h : calcCumAbsSurfaceEnergy values dt tts nodal red stt trim start = .ok out) :
+    ∀ r ∈ out.rowsList, r.Pairwise (· ≤ ·) := by
+  unfold calcCumAbsSurfaceEnergy at h
+  cases he : calcSurfaceEnergy values dt tts nodal red stt trim start with
+  | error e => rw [he] at h; cases h
+  | ok e =>
+    rw [he] at h
+    cases e with
+    | row r =>
+      have : out = .row (cumAbsRow r) := by
+        have h' : (Except.ok (Out.row (cumAbsRow r)) : Except _ Out) = .ok out := h
+        injection h' with h''; exact h''.symm
+      subst this
+      intro r' hr'
+      simp only [Out.rowsList, List.mem_singleton] at hr'
+      subst hr'; exact cumAbsRow_pairwise r
+    | rows rs =>
+      have : out = .rows (rs.map cumAbsRow) := by
+        have h' : (Except.ok (Out.rows (rs.map cumAbsRow)) : Except _ Out) = .ok out := h
+        injection h' with h''; exact h''.symm
+      subst this
+      intro r' hr'
+      simp only [Out.rowsList, List.mem_map] at hr'
+      obtain ⟨r, _, rfl⟩ := hr'
+      exact cumAbsRow_pairwise r
+
+example : calcCumAbsSurfaceEnergy [1, 2, -1, 3] (1/2) [1/2] true (.scalar 1 1) (1/2) false false =
+    .ok (.row [0, 9/32, 9/32, 7/16, 13/16, 19/16]) := by decide +kernel
+
+/-- **C19.c (lengths)** option table of `trim_to_length` (scalar reductions, same guard as C19.a): whenever
+`calc_surface_energy` returns, every row has length
+`npts + max_shift` (`trim=False, start=False`), `npts` (`trim=True`), `npts + extras` (`start=True, trim=False`,
+`extras = max(max(sis),0) − min(min(2·s2d),0)` as computed by `trimWidth`). -/
+theorem surface_energy_lengths (values : List ℚ) (dt : ℚ) (tts : List ℚ) (nodal : Bool) (u d : ℚ) (ms : ℕ)
+    (stt : ℚ) (trim start : Bool) (out : Out)
+    (hdt : dt ≠ 0) (hv : values ≠ []) (hms : maxShift tts dt = .ok ms)
+    (h : calcSurfaceEnergy values dt tts nodal (.scalar u d) stt trim start = .ok out) :
+    ∀ r ∈ out.rowsList,
+      (trim = false ∧ start = false → r.length = values.length + ms) ∧
+      (trim = true → r.length = values.length) ∧
+      (trim = false ∧ start = true →
+        ∃ w, trimWidth values.length tts dt trim start stt = .ok w ∧ values.length ≤ w ∧ r.length = w) := by
+  rw [(surface_energy_def values dt tts nodal u d ms stt trim start hdt hv hms).1] at h
+  cases ht : trimToLength (tts.map (fun t => energyRow values dt ms (2 * t / dt) nodal u d))
+      values.length tts dt trim start stt with
+  | error e => rw [ht] at h; cases h
+  | ok rows =>
+    rw [ht] at h
+    have hsq : squeeze tts.length rows = .ok out := h
+    intro r hr
+    have hrr := squeeze_rows _ _ _ hsq r hr
+    by_cases hts : trim = true ∨ start = true
+    · obtain ⟨w, hw, -, hall⟩ := trimToLength_inv _ _ _ _ _ _ _ _ hts ht
+      have hrl := (hall r hrr).1
+      refine ⟨fun hc => ?_, fun hc => ?_, fun hc => ?_⟩
+      · rcases hts with h1 | h1
+        · rw [hc.1] at h1; cases h1
+        · rw [hc.2] at h1; cases h1
+      · rw [hrl]
+        subst hc
+        simp only [trimWidth, Bool.not_true, Bool.and_false, Bool.false_eq_true, if_false] at hw
+        injection hw with hw'; exact hw'.symm
+      · refine ⟨w, hw, ?_, hrl⟩
+        obtain ⟨rfl, rfl⟩ := hc
+        simp only [trimWidth, Bool.not_false, Bool.and_true, if_true] at hw
+        split at hw
+        · cases hw
+        · injection hw with hw'; omega
+    · have hc : trim = false ∧ start = false := by
+        cases trim <;> cases start <;> simp_all
+      obtain ⟨rfl, rfl⟩ := hc
+      rw [trimToLength_none _ _ _ _ _ hdt] at ht
+      have : rows = tts.map (fun t => energyRow values dt ms (2 * t / dt) nodal u d) := by
+        injection ht with ht'; exact ht'.symm
+      subst this
+      obtain ⟨t, _, rfl⟩ := List.mem_map.mp hrr
+      refine ⟨fun _ => (by simp), fun hc => (by cases hc), fun hc => (by cases hc.2)⟩
+
+example : calcSurfaceEnergy [1, 2, -1, 3] (1/2) [1/4, 1/2] true (.scalar 1 1) 1 false true
+    = .ok (.rows [[0, 0, 0, 1/8, 0, 1/32], [0, 0, 9/32, 9/32, 1/8, 1/2]]) ∧
+    trimWidth 4 [1/4, 1/2] (1/2) false true 1 = .ok 6 := by decide +kernel
+
+/-- **C19.c (zero)** zero travel time(s), nodal surface, equal reductions: up- and down-going waves cancel, the
+surface energy is identically zero (whatever `stt`, `trim`, `start`, whenever the call returns) … -/
+theorem surface_energy_zero (values : List ℚ) (dt : ℚ) (tts : List ℚ) (u stt : ℚ) (trim start : Bool) (out : Out)
+    (hdt : dt ≠ 0) (hv : values ≠ []) (hne : tts ≠ []) (h0 : ∀ t ∈ tts, t = 0)
+    (h : calcSurfaceEnergy values dt tts true (.scalar u u) stt trim start = .ok out) :
+    ∀ r ∈ out.rowsList, ∀ v ∈ r, v = 0 := by
+  have hms := maxShift_zero tts dt hne h0
+  rw [(surface_energy_def values dt tts true u u 0 stt trim start hdt hv hms).1] at h
+  have hrows0 : ∀ row ∈ tts.map (fun t => energyRow values dt 0 (2 * t / dt) true u u), ∀ v ∈ row, v = 0 := by
+    intro row hrow
+    obtain ⟨t, ht, rfl⟩ := List.mem_map.mp hrow
+    rw [h0 t ht]
+    have : (2 : ℚ) * 0 / dt = 0 := by simp
+    rw [this]; exact energyRow_zero values dt u
+  cases ht : trimToLength (tts.map (fun t => energyRow values dt 0 (2 * t / dt) true u u))
+      values.length tts dt trim start stt with
+  | error e => rw [ht] at h; cases h
+  | ok rows =>
+    rw [ht] at h
+    have hsq : squeeze tts.length rows = .ok out := h
+    intro r hr v hv'
+    have hrr := squeeze_rows _ _ _ hsq r hr
+    by_cases hts : trim = true ∨ start = true
+    · obtain ⟨w, -, -, hall⟩ := trimToLength_inv _ _ _ _ _ _ _ _ hts ht
+      rcases (hall r hrr).2 v hv' with hz | ⟨row, hrow, hvr⟩
+      · exact hz
+      · exact hrows0 row hrow v hvr
+    · have hc : trim = false ∧ start = false := by
+        cases trim <;> cases start <;> simp_all
+      obtain ⟨rfl, rfl⟩ := hc
+      rw [trimToLength_none _ _ _ _ _ hdt] at ht
+      have : rows = tts.map (fun t => energyRow values dt 0 (2 * t / dt) true u u) := by
+        injection ht with ht'; exact ht'.symm
+      subst this
+      exact hrows0 r hrr v hv'
+
+/-- … and so is its cumulative absolute change. -/
+theorem cum_abs_zero (values : List ℚ) (dt : ℚ) (tts : List ℚ) (u stt : ℚ) (trim start : Bool) (out : Out)
+    (hdt : dt ≠ 0) (hv : values ≠ []) (hne : tts ≠ []) (h0 : ∀ t ∈ tts, t = 0)
+    (h : calcCumAbsSurfaceEnergy values dt tts true (.scalar u u) stt trim start = .ok out) :
+    ∀ r ∈ out.rowsList, ∀ v ∈ r, v = 0 := by
+  unfold calcCumAbsSurfaceEnergy at h
+  cases he : calcSurfaceEnergy values dt tts true (.scalar u u) stt trim start with
+  | error e => rw [he] at h; cases h
+  | ok e =>
+    rw [he] at h
+    have hz := surface_energy_zero values dt tts u stt trim start e hdt hv hne h0 he
+    cases e with
+    | row r =>
+      have : out = .row (cumAbsRow r) := by
+        have h' : (Except.ok (Out.row (cumAbsRow r)) : Except _ Out) = .ok out := h
+        injection h' with h''; exact h''.symm
+      subst this
+      intro r' hr'
+      simp only [Out.rowsList, List.mem_singleton] at hr'
+      subst hr'
+      exact cumAbsRow_allZero r (hz r (by simp [Out.rowsList]))
+    | rows rs =>
+      have : out = .rows (rs.map cumAbsRow) := by
+        have h' : (Except.ok (Out.rows (rs.map cumAbsRow)) : Except _ Out) = .ok out := h
+        injection h' with h''; exact h''.symm
+      subst this
+      intro r' hr'
+      simp only [Out.rowsList, List.mem_map] at hr'
+      obtain ⟨r, hr, rfl⟩ := hr'
+      exact cumAbsRow_allZero r (hz r (by simpa [Out.rowsList] using hr))
+
+example : calcCumAbsSurfaceEnergy [1, 2, -1, 3] (1/2) [0] true (.scalar (3/4) (3/4)) (1/2) true true =
+    .ok (.row [0, 0, 0, 0]) := by decide +kernel
+
+/-- **C19.c (scaling)** scaling the record by any `α` (also negative) scales the cumulative absolute change by `α²`,
+entry by entry, and leaves the outcome (returns / raises) unchanged (scalar reductions, guard of C19.a).
+`Out.map g` applies `g` to every sample of a 1-D or 2-D result. -/
+theorem cum_abs_scaling (α : ℚ) (values : List ℚ) (dt : ℚ) (tts : List ℚ) (nodal : Bool) (u d : ℚ)
+    (ms : ℕ) (stt : ℚ) (trim start : Bool)
+    (hdt : dt ≠ 0) (hv : values ≠ []) (hms : maxShift tts dt = .ok ms) :
+    calcCumAbsSurfaceEnergy (values.map (α * ·)) dt tts nodal (.scalar u d) stt trim start
+      = (calcCumAbsSurfaceEnergy values dt tts nodal (.scalar u d) stt trim start).map (Out.map ((α ^ 2) * ·)) :=
+  calcCumAbs_smul α values dt tts nodal u d ms stt trim start hdt hv hms
+
+/-- the signed surface energy itself scales with `α·|α|` (it is `½·v·|v|`, odd in `v`) -/
+theorem surface_energy_scaling (α : ℚ) (values : List ℚ) (dt : ℚ) (tts : List ℚ) (nodal : Bool) (u d : ℚ)
+    (ms : ℕ) (stt : ℚ) (trim start : Bool)
+    (hdt : dt ≠ 0) (hv : values ≠ []) (hms : maxShift tts dt = .ok ms) :
+    calcSurfaceEnergy (values.map (α * ·)) dt tts nodal (.scalar u d) stt trim start
+      = (calcSurfaceEnergy values dt tts nodal (.scalar u d) stt trim start).map (Out.map ((α * |α|) * ·)) :=
+  calcSurfaceEnergy_smul α values dt tts nodal u d ms stt trim start hdt hv hms
+
+example : calcCumAbsSurfaceEnergy ([1, 2, -1, 3].map ((-3 : ℚ) * ·)) (1/2) [1/2, 1/8] false (.scalar 1 (1/2)) (1/2) true true
+    = (calcCumAbsSurfaceEnergy [1, 2, -1, 3] (1/2) [1/2, 1/8] false (.scalar 1 (1/2)) (1/2) true true).map
+        (Out.map (((-3 : ℚ) ^ 2) * ·)) ∧
+    calcCumAbsSurfaceEnergy [1, 2, -1, 3] (1/2) [1/2, 1/8] false (.scalar 1 (1/2)) (1/2) true true
+      = .ok (.rows [[0, 9/32, 81/128, 2], [0, 0, 225/512, 529/512]]) := by
+  decide +kernel
+
+/-! ## C19.d — rows of a batch -/
+
+/-- **C19.d (common length)** with `ms` the batch `max_shift` and `msᵢ` the `max_shift` of travel time `tᵢ` alone
+(`msᵢ ≤ ms`), the untrimmed batch row of `tᵢ` restricted to the single result's length `npts + msᵢ` *is* the
+single-travel-time result … -/
+theorem batch_row_prefix (values : List ℚ) (dt : ℚ) (tts : List ℚ) (nodal : Bool) (u d : ℚ) (ms msi : ℕ) (t : ℚ)
+    (ht : t ∈ tts) (hms : maxShift tts dt = .ok ms) (hmsi : maxShift [t] dt = .ok msi) :
+    msi ≤ ms ∧
+    (energyRow values dt ms (2 * t / dt) nodal u d).take (values.length + msi)
+      = energyRow values dt msi (2 * t / dt) nodal u d := by
+  have hle := maxShift_single_le tts dt ms msi t ht hms hmsi
+  exact ⟨hle, energyRow_take values dt ms msi hle _ nodal u d⟩
+
+/-- … hence, trimmed to `npts` (`trim=True, start=False`), batch and single results are given by the *same* row
+expression: the batch is `squeeze` of the rows `(energyRow … ms …).take npts`, the single call returns
+`(energyRow … msᵢ …).take npts`, and the two coincide. -/
+theorem batch_row_eq_single_trimmed (values : List ℚ) (dt : ℚ) (tts : List ℚ) (nodal : Bool) (u d : ℚ)
+    (ms msi : ℕ) (t stt : ℚ) (hdt : dt ≠ 0) (hv : values ≠ [])
+    (ht : t ∈ tts) (hms : maxShift tts dt = .ok ms) (hmsi : maxShift [t] dt = .ok msi) :
+    calcSurfaceEnergy values dt tts nodal (.scalar u d) stt true false =
+      squeeze tts.length (tts.map (fun t' => (energyRow values dt ms (2 * t' / dt) nodal u d).take values.length)) ∧
+    calcSurfaceEnergy values dt [t] nodal (.scalar u d) stt true false =
+      .ok (.row ((energyRow values dt msi (2 * t / dt) nodal u d).take values.length)) ∧
+    (energyRow values dt msi (2 * t / dt) nodal u d).take values.length =
+      (energyRow values dt ms (2 * t / dt) nodal u d).take values.length := by
+  refine ⟨?_, ?_, ?_⟩
+  · rw [(surface_energy_def values dt tts nodal u d ms stt true false hdt hv hms).1,
+      trimToLength_trim _ _ _ _ _ hdt (by simp) (by
+        intro r hr
+        obtain ⟨t', _, rfl⟩ := List.mem_map.mp hr
+        simp)]
+    simp only [List.map_map]
+    rfl
+  · rw [(surface_energy_def values dt [t] nodal u d msi stt true false hdt hv hmsi).1,
+      trimToLength_trim _ _ _ _ _ hdt (by simp) (by
+        intro r hr
+        obtain ⟨t', _, rfl⟩ := List.mem_map.mp hr
+        simp)]
+    rfl
+  · obtain ⟨hle, hp⟩ := batch_row_prefix values dt tts nodal u d ms msi t ht hms hmsi
+    rw [← hp, List.take_take, min_eq_left (by omega)]
+
+example : calcSurfaceEnergy [1, 2, -1, 3] (1/2) [1/2, 3/2] true (.scalar 1 1) 0 true false =
+      .ok (.rows [[0, 9/32, 9/32, 1/8], [0, 9/32, 1/2, 9/8]]) ∧
+    calcSurfaceEnergy [1, 2, -1, 3] (1/2) [1/2] true (.scalar 1 1) 0 true false = .ok (.row [0, 9/32, 9/32, 1/8]) := by
+  decide +kernel
+
+/-- **C19.d, tail clause is false.** DESIGN states "for integer-sample delays the batch row is the single result
+extended by its final value".  That is *not* what the code computes: the single-travel-time result stops at index
+`npts + s − 1`, but the velocity changes once more at index `npts + s` (the trapezoid between the last delayed sample
+and the first padded zero contributes `dt·(∓down_red·a[npts−1])/2`), and only then stays constant.
+Kernel-checked counterexample (`a = [1,2,−1,3]`, `dt = 1/2`, `tt = 1/2` → `s = 2`, batch with `tt = 3/2`): the single
+result ends with `1/8`, the batch row continues with `−1/32`. [Python agrees: 0.125 then −0.03125.] -/
+example :
+    calcSurfaceEnergy [1, 2, -1, 3] (1/2) [1/2] true (.scalar 1 1) 0 false false
+      = .ok (.row [0, 9/32, 9/32, 1/8, 1/2, 1/8]) ∧
+    calcSurfaceEnergy [1, 2, -1, 3] (1/2) [1/2, 3/2] true (.scalar 1 1) 0 false false
+      = .ok (.rows [[0, 9/32, 9/32, 1/8, 1/2, 1/8, -1/32, -1/32, -1/32, -1/32],
+                    [0, 9/32, 1/2, 9/8, 81/32, 81/32, 2, 25/32, 1/2, 1/8]]) := by
+  decide +kernel
+
 end EqsigVerif.Props.C19
